@@ -188,7 +188,7 @@ def gen_expr(rng, names, depth=2):
         if k < 0.85 and names:
             n = rng.choice(names)
             return rng.choice(["", "", "<", ">"]) + n
-        return rng.choice(["*", "true", "false", "-1", "!0", "defined(foo)"])
+        return rng.choice(["*", "true", "false", "-1", "!0", "defined(foo)", "defined(defined(foo))", "defined(%s)" % gen_expr(rng, names, 0)])
     op = rng.choice(OPS)
     a, b = gen_expr(rng, names, depth - 1), gen_expr(rng, names, depth - 1)
     if rng.random() < 0.3:
@@ -367,6 +367,9 @@ class Run:
                 continue
             trace = [{"ne": p["ne"], "e": str(int(p["e"], 16)), "nu": p["nu"], "u": str(int(p["u"], 16)), "added": p["added"], "changed": p.get("changed", 0), "nseg": p["nseg"]}
                      for p in x["passes"]]
+            if self.cap is not None and len(trace) > self.cap:
+                self.chk.oracle_failure(None, "[%s] %s ran %d passes, more than the cap of %d the termination theorem is about" % (stream, st, len(trace), self.cap),
+                                        {"stream": stream, "files": files})
             m = self.model.call({"cmd": "replay", "trace": trace})
             msgs = [e["msg"] for e in x.get("errors", [])]
             if any("did not converge" in s for s in msgs):
@@ -625,6 +628,13 @@ class Run:
             elif (pred["r"] == "cycle_reported") != cyc:
                 self.chk.tie_break("correspondence:site", "import graph with relative paths %s: model predicts %s, implementation %s %s" % (graph, pred["r"], cls, det), {"files": files})
 
+    def listing_widths(self):
+        """bytes per listing line, as configured in mos.toml ([formatting.listing] num-bytes-per-line): 0 included"""
+        srcs = ["lda #1\n.byte 1,2,3,4,5,6,7,8,9,10\nl: jmp l\n", "nop\n", ".loop 20 { .word index }\n"]
+        for nb in [0, 1, 2, 3, 8, 255, 65536]:
+            for src in srcs:
+                self.case("listing_width", {"main.asm": src}, stages=["codegen"], listing_bytes=nb)
+
     def listing_redefined_segments(self):
         """the same segment name defined more than once, with code before / between / after the definitions: source-map entries
         of the earlier incarnation can start inside the final range and be longer than what the final segment holds"""
@@ -772,7 +782,7 @@ class Run:
                     with open(os.path.join(d, k), "wb") as f:
                         f.write(v)
                 with open(os.path.join(d, "mos.toml"), "w") as f:
-                    f.write('[build]\nentry = "main.asm"\nlisting = true\n')
+                    f.write('[build]\nentry = "main.asm"\nlisting = true\n[formatting.listing]\nnum-bytes-per-line = %d\n' % rng.choice([0, 1, 8, 8, 8, 16]))
                 for cmd in (["build"], ["format"]):
                     t0 = time.time()
                     try:
@@ -803,14 +813,20 @@ class Run:
             else:
                 continue
             reply, fails = self.case("corpus:" + f, files, sample=f.startswith("nonterminating_gray"))
-            if f.startswith("nonterminating_gray") and reply is not None and not reply.get("crash"):
-                x = reply.get("codegen", {})
-                # without the cap this program is assembled forever: the loop state recurs (digest repeats) and no rule fires
-                if not x.get("repeat") or stage_outcome(x) != ("diag", ["no_convergence"]):
-                    self.chk.tie_break("corpus:nonterminating", "the recorded non-terminating program no longer shows a recurring loop state ended by the cap: %s %s"
-                                       % (x.get("repeat"), stage_outcome(x)), {"files": files})
-                else:
-                    self.bump("nonterminating_witness_period", x["repeat"]["again"] - x["repeat"]["first"])
+            if f.startswith(("nonterminating_gray", "cyclic_segments")) and reply is not None and not reply.get("crash") and not reply.get("hang"):
+                # programs whose passes never agree: the loop must be ended by its cap (C06_pass_loop_terminates) with the
+                # project-level diagnostic 'did not converge', in normal and in greedy mode; for the Gray-code program the
+                # loop state provably recurs (H1 digest repeats), i.e. without the cap it is assembled forever
+                for st in ("codegen", "greedy"):
+                    x = reply.get(st, {})
+                    msgs = [e["msg"] for e in x.get("errors", [])]
+                    if stage_outcome(x)[0] != "diag" or not any("did not converge" in m for m in msgs):
+                        self.chk.oracle_failure(None, "[corpus:%s] %s: a program whose passes never agree does not end with the 'did not converge' diagnostic: %s"
+                                                % (f, st, stage_outcome(x)), {"files": files})
+                    elif f.startswith("nonterminating_gray") and not x.get("repeat"):
+                        self.chk.tie_break("corpus:nonterminating", "the recorded non-terminating program no longer shows a recurring loop state", {"files": files})
+                    elif x.get("repeat"):
+                        self.bump("nonterminating_witness_period", x["repeat"]["again"] - x["repeat"]["first"])
 
 
 def run(chk):
@@ -823,6 +839,8 @@ def run(chk):
     R.known = Known(R.model)
     mos = common.build_mos()
     consts = R.model.call({"cmd": "consts"})
+    R.cap = consts.get("max_iterations")
+    R.cap = int(R.cap) if R.cap is not None else None
     if consts.get("max_iterations") is None:
         chk.tie_break("model:cap", "the pass loop has no cap (MAX_ITERATIONS = usize::MAX): termination is not provable", {})
     R.corpus()
@@ -830,6 +848,7 @@ def run(chk):
     R.import_graphs(400 if thorough else 60)
     R.import_paths(300 if thorough else 50)
     R.listing_redefined_segments()
+    R.listing_widths()
     R.macro_graphs(200 if thorough else 30)
     R.nesting()
     R.greedy_templates()
